@@ -1,7 +1,7 @@
 """C12 - discrete-time simulators follow generation-by-generation Reed-Frost dynamics."""
 from ..common import Report, Ob
 from ..pyvc import verify as V
-from ..contracts import discrete
+from ..contracts import discrete, percolation
 from ..effects import binding
 from . import util
 
@@ -13,9 +13,16 @@ def reg():
     return r
 
 
+def reg_perc_top():
+    r = V.Registry()
+    for c in percolation.contracts():
+        r.add(c)
+    return r
+
+
 def run(tier, seed):
     rep = Report('C12', tier, seed)
-    rep.add_unit_results(util.run_jobs(util.jobs_for(reg, tier=tier)))
+    rep.add_unit_results(util.run_jobs(util.jobs_for(reg, tier=tier) + util.jobs_for(reg_perc_top, tier=tier, quals={'percolate_network'})))
     for ob in binding.obligations(only=('simulation',)):
         if any(x in ob.id for x in ('discrete', 'percolat')):
             rep.add(ob)
@@ -27,6 +34,6 @@ def run(tier, seed):
     rep.assumptions += ['M (cited): the layer recurrence gives infection time = tmin + BFS distance; independent Bernoulli(p) contacts give the Reed-Frost chain',
                         'the transmission rule is a function of the ordered pair within a step (it is asked at most once per pair per step)',
                         'distinct / disjoint initial sets; rho not combined with initial_recovereds']
-    rep.not_covered += ['basic_discrete_SIS loop and percolate_network are not under contract yet (binding of their wrappers only)',
+    rep.not_covered += ['basic_discrete_SIS loop is not under contract yet; percolate_network: same nodes, symmetric sub-graph of G, each edge decided by its own U01 draw compared with p',
                         'return_full_data=True paths of discrete_SIR']
     return rep, None
